@@ -11,7 +11,7 @@ HARNESSES = [kani.H("c12_generational", "every update through a Generational han
 ASSUME = ["E3: std HashMap modelled as a finite association per map object and abstract key (trusted: a map for keys with coherent Eq/Hash); Mutex lock = identity (sequential); quanta Clock::now = arbitrary non-decreasing instant; Instant - Instant and Duration > Duration as unsigned 64-bit arithmetic",
           "E3: Registry::delete_* returns an arbitrary truth value and is recorded as an observation",
           "E3 bounds: one key, up to 3 observations over the kinds; arbitrary generations, instants, timeout and mask",
-          "the Prometheus side (distribution of an expired histogram is removed) is not covered by this check yet"]
+          "Prometheus side (props/prom_int.py): the recorder built by the real builder, Inner::get_recent_metrics with the real Recency and the real distribution map; registry, bucket, key_to_parts and the sketch are abstract (see that file)"]
 
 KIND = {"counter": 0, "gauge": 1, "histogram": 2}
 
@@ -337,6 +337,12 @@ def run(tier, seed, t0):
         o.status, o.detail = "skipped", f"not applicable to this layout of Recency: {type(ex).__name__}: {ex}"
         e3.res.obligations.append(o)
         log(f"  [e3] c12_step_tables: skipped ({o.detail[:200]})")
+    import prom_int
+    for kind, ngl in ([("Histogram", 1), ("Counter", 0), ("Gauge", 1)] if tier == "quick" else [(k, g) for k in prom_int.KINDS for g in (0, 1)]):
+        try:
+            prom_int.scen_expiry(e3, "C12", "c12", kind, ngl)
+        except _e3.ENC_ERRORS as ex:
+            e3.error(f"c12_{kind.lower()}_expiry_gl{ngl}", "MIR->SMT integration encoding of the Prometheus recorder with an idle timeout", ex)
     obs = list(e3.res.obligations)
     obs += kani.run_group("util", HARNESSES, tier, hooks=True)
     finish("C12", tier, seed, obs, t0, ASSUME + ["E3 callee models: " + ", ".join(sorted(e3.models))], sorted(e3.functions) + FUNCS_E1,
